@@ -174,8 +174,10 @@ PROPS = {
                 "correspondence stream runs the DIMACS/log programs of the model on failing schedules too; non-trivial = document of at "
                 "least 8 bytes",
         "theorems_note": "Props/C04.v: parked error kept until taken; give_up* report the parked error; eof refuses a failing stream; "
-                         "results obtained before the end of the delivered data are the results on every continuation",
-        "assumes": ["honest sources up to the failure; AIGER/BTOR2 parsers not modelled (oracle only)"],
+                         "results obtained before the end of the delivered data are the results on every continuation; end to end for the DIMACS family "
+                         "and solver logs (all admissible runs): never a clean end on a failing source, final error = the source's error or a "
+                         "syntax error found before the end of the delivered data (then reported on every continuation)",
+        "assumes": ["honest sources up to the failure; AIGER/BTOR2: programs modelled and tied by the pa stream, end-to-end theorems pending (fault oracle)"],
     },
     "C09": {
         "streams": [
@@ -206,8 +208,9 @@ PROPS = {
                 "assertions on), no abort, no stack overflow, within a time limit — and the peak heap, measured by a counting "
                 "allocator, must stay below 64 x input length + 8 MiB; deep renumbering chains; non-trivial = at least 16 bytes",
         "theorems_note": "Props/C05.v: refill loop terminates, reader histories safe, advance panics iff beyond the window, digit "
-                         "accumulation never wraps, varint length check, renumbering terminates and never panics",
-        "assumes": ["heap and stack are runtime behaviour: measured (partial)", "AIGER/BTOR2 parsers not modelled (oracle only)"],
+                         "accumulation never wraps, varint length check, renumbering terminates and never panics; end to end for the DIMACS family "
+                         "and solver logs: every admissible run ends with a value (no stuck advance, no panic, no fuel exhaustion)",
+        "assumes": ["heap and stack are runtime behaviour: measured (partial)", "AIGER/BTOR2: programs modelled and tied by the pa stream, end-to-end safety theorems pending (safe oracle)"],
     },
     "C06": {
         "streams": [
@@ -223,8 +226,8 @@ PROPS = {
                 "variable count, clause count vs clean end, groups, MAX_DIMACS per type, AIGER M/I/L/O/A/B/C/J/F and literal codes, "
                 "binary deltas), with and without ignore_header; digit scanners against the model on boundary numerals",
         "theorems_note": "Props/C06.v: scanners return exactly the decimal value or None (all admissible runs), limits of the literal "
-                         "types fit, varint exact",
-        "assumes": ["limit enforcement of whole parsers: model = code (pa stream) + oracle, not yet theorems (partial)"],
+                         "types fit, varint exact; token-level and end-to-end limit theorems for the DIMACS family and solver logs",
+        "assumes": ["AIGER/BTOR2 limit enforcement: model = code (pa stream) + limits oracle, theorems pending (partial)"],
     },
     "C07": {
         "streams": [
@@ -254,8 +257,9 @@ PROPS = {
                 "reported line must be the token's line and the column must lie on the token; every syntax error of every mutated "
                 "document must lie inside the input (1 <= line <= lines+1, 1 <= column <= length of that line + 1); model and code must "
                 "agree on every error location of the DIMACS family and solver logs",
-        "theorems_note": "Props/C08.v: column formula of give_up*, line_at_offset",
-        "assumes": ["line/column invariant of whole parsers: model = code (pa stream) + location oracle, not yet a theorem (partial)",
+        "theorems_note": "Props/C08.v: column formula of give_up*, line_at_offset; end to end for the DIMACS family and solver logs: loc_ok for "
+                         "every syntax error of every admissible run, bounds, executable loc_spec, pinned exception",
+        "assumes": ["AIGER/BTOR2 locations: model = code (pa stream) + location oracle, theorems pending (partial)",
                     "known finding K1 (binary AIGER and-gate bytes 0x0A)"],
     },
     "C03": {
